@@ -59,6 +59,41 @@ macro_rules! extern_wasm {
     };
 }
 
+/// Verification hook (off unless `--cfg bytecodealliance_wit_bindgen_verif`).
+///
+/// On non-wasm targets with the guard on this shadows `extern_wasm!` above so
+/// that the canonical built-ins are declared as real `extern "C"` symbols,
+/// named by their `#[link_name]` (the wasm import name), instead of the
+/// `unreachable!()` shims. A native harness can then define those symbols to
+/// act as a mock component-model host. With the guard off nothing changes.
+#[allow(
+    unexpected_cfgs,
+    reason = "verification-only cfg, never set by cargo"
+)]
+#[macro_use]
+mod verif_extern_wasm {
+    #[cfg(all(bytecodealliance_wit_bindgen_verif, not(target_family = "wasm")))]
+    macro_rules! extern_wasm {
+        (
+            $(#[$extern_attr:meta])*
+            unsafe extern "C" {
+                $(
+                    $(#[$func_attr:meta])*
+                    $vis:vis fn $func_name:ident ( $($args:tt)* ) $(-> $ret:ty)?;
+                )*
+            }
+        ) => {
+            $(#[$extern_attr])*
+            unsafe extern "C" {
+                $(
+                    $(#[$func_attr])*
+                    $vis fn $func_name($($args)*) $(-> $ret)?;
+                )*
+            }
+        };
+    }
+}
+
 mod abi_buffer;
 mod cabi;
 mod error_context;
